@@ -42,6 +42,8 @@ pub fn run(tier: &str, seed: u64, only: Option<&str>) -> Run {
     crate::taikopre::run(&mut run, tier, seed, only, false);
     // osu!catch end to end (PIPE catch lines)
     crate::pipe_catch::run(&mut run, tier, seed, only);
+    // osu!->mania convert end to end (PIPE maniac lines)
+    crate::pipe_maniac::run(&mut run, tier, seed, only);
     // native osu!mania end to end against Model/PipelineMania.lean (PIPE lines)
     crate::pipe::run(&mut run, tier, seed, only);
     run
